@@ -123,7 +123,9 @@ class TypeNS(AbsObj):
         if a == 'builtin_types':
             return [AType(t) for t in BUILTIN_TYPES]
         if a == 'from_type_char':
-            return vmsim.FnV(lambda ar, k: AType(CHAR_TYPE[ar[0]]))
+            return vmsim.FnV(lambda ar, k: AType(CHAR_TYPE[ar[0]])
+                             if not is_unk(ar[0]) and ar[0] in CHAR_TYPE
+                             else Unk('type'))
         if a == 'is_type_char':
             return vmsim.FnV(lambda ar, k: ar[0] in '%&!#$')
         if a == 'type_chars':
@@ -346,9 +348,14 @@ class ANode(AbsObj):
             m = self.sim.repo.find_method(ci, a)
             if m is not None and interp is not None:
                 from .astutil import decorators
+                decs = [d[0] for d in decorators(m.node)]
                 clo = Closure(m.node, self.sim.module_env(m.module.name),
                               name=f'{self.cls}.{a}', bound=self)
-                if any(d[0] == 'property' for d in decorators(m.node)):
+                if 'staticmethod' in decs:
+                    clo.bound = None
+                elif 'classmethod' in decs:
+                    clo.bound = self.sim.aclass(self.cls)
+                if 'property' in decs:
                     return clo.call_([], {}, interp)
                 return clo
             for c in self.sim.repo.mro(ci):
